@@ -199,3 +199,58 @@ fn lifecycle_far() {
     check_drop(src_off, None, 12, n);
     kani::cover!(true, "COVER:end");
 }
+
+// ---- C05 / C01.fail.loud: installation that cannot be completed ---------------------------------
+
+/// no trampoline can be obtained (allocator contract: clean-failure panic): raised before the
+/// function is touched, nothing mapped, for both installers
+#[kani::proof]
+#[kani::unwind(26)]
+#[kani::stub(crate::injector_core::linuxapi::__clear_cache, os::flush)]
+#[kani::stub(crate::injector_core::common::allocate_jit_memory, allocate_jit_memory_contract)]
+fn c05_nomem() {
+    fresh_world();
+    let src_off: usize = kani::any();
+    kani::assume(src_off <= A - 16);
+    let as_bool: bool = kani::any();
+    unsafe {
+        os::MMAP_MODE[0] = os::MMAP_FAIL;
+        ALLOW = bit(K_NOMEM);
+        JUSTIFIED = true;
+        NEED_MEM_EQ = true;
+        NEED_LIVE = 0;
+    }
+    let g = if as_bool {
+        PatchAmd64::replace_function_return_boolean(fp(os::mem_ptr(src_off)), true)
+    } else {
+        PatchAmd64::replace_function_with_other_function(fp(os::mem_ptr(src_off)), fp_int(0x1000))
+    };
+    kani::cover!(true, "COVER:installed-without-memory");
+    std::mem::forget(g);
+}
+
+/// the function's pages cannot be made writable: "mprotect failed" panic with the function untouched
+#[kani::proof]
+#[kani::unwind(26)]
+#[kani::stub(crate::injector_core::linuxapi::__clear_cache, os::flush)]
+#[kani::stub(crate::injector_core::common::allocate_jit_memory, far_alloc)]
+fn c05_mprotect_fails() {
+    fresh_world();
+    let src_off: usize = kani::any();
+    kani::assume(src_off <= A - 16);
+    kani::assume(os::far_ptr() as usize <= isize::MAX as usize - 64 && os::mem_base() <= isize::MAX as usize - A);
+    let as_bool: bool = kani::any();
+    unsafe {
+        os::MPROTECT_FAIL = true;
+        ALLOW = bit(K_MPROTECT);
+        JUSTIFIED = true;
+        NEED_MEM_EQ = true; // the trampoline lives in the far object: the arena is code memory only
+    }
+    let g = if as_bool {
+        PatchAmd64::replace_function_return_boolean(fp(os::mem_ptr(src_off)), true)
+    } else {
+        PatchAmd64::replace_function_with_other_function(fp(os::mem_ptr(src_off)), fp_int(0x1000))
+    };
+    kani::cover!(true, "COVER:installed-despite-mprotect-failure");
+    std::mem::forget(g);
+}
